@@ -177,6 +177,46 @@ CANARIES = [
 CANARY_STRUCT = [([-1, 0, 0], [2, 2, 2])]
 
 
+def native_synaptic_charge():
+    """native replay: two single-compartment cells, one IonotropicSynapse onto a compartment with capacitance 2.5, one backward
+    Euler step; charge balance area*cm*(v1 - v0) = -dt * I_syn(v1) on the postsynaptic compartment (leak-free, no stimulus)"""
+    try:
+        import jax
+        jax.config.update("jax_enable_x64", True)
+        import jaxley as jx
+        from jaxley.connect import connect
+        from jaxley.synapses import IonotropicSynapse
+        comp = jx.Compartment()
+        net = jx.Network([jx.Cell([jx.Branch(comp, ncomp=1)], parents=[-1]) for _ in range(2)])
+        connect(net.cell(0).branch(0).comp(0), net.cell(1).branch(0).comp(0), IonotropicSynapse())
+        net.set("IonotropicSynapse_s", 0.5)
+        net.set("IonotropicSynapse_k_minus", 0.0)
+        net.set("IonotropicSynapse_gS", 1e-3)
+        net.cell(0).set("v", -90.0)          # far below threshold: s stays (almost) constant
+        net.cell(1).set("v", -70.0)
+        net.cell(1).set("capacitance", 2.5)
+        net.cell(1).branch(0).comp(0).record("v", verbose=False)
+        net.IonotropicSynapse.record("IonotropicSynapse_s", verbose=False)
+        dt = 0.025
+        out = np.asarray(jx.integrate(net, delta_t=dt, t_max=dt, voltage_solver="jax.sparse"))
+        v0, v1, s1 = float(out[0, 0]), float(out[0, 1]), float(out[1, 1])
+        r, l, cm = float(net.nodes.radius[1]), float(net.nodes.length[1]), 2.5
+        area_cm2 = 2 * np.pi * r * l * 1e-8
+        dq_pC = area_cm2 * cm * (v1 - v0) * 1e3                     # uF*mV = nC = 1e3 pC
+        e_syn = float(net.edges.IonotropicSynapse_e_syn[0])
+        i_syn_nA = 1e-3 * s1 * (v1 - e_syn)                         # gS [uS] * s * (v - e) [mV] = nA  (gS = 1e-3 uS)
+        want_pC = -dt * i_syn_nA                                    # nA * ms = pC
+        rel = abs(dq_pC - want_pC) / max(abs(want_pC), 1e-30)
+        return {"input": "IonotropicSynapse onto a compartment with capacitance 2.5 uF/cm2, one bwd_euler step", "charge_change_pC": dq_pC, "minus_dt_times_synaptic_current_pC": want_pC,
+                "relative_difference": rel, "reproduced": bool(rel > 1e-3)}
+    except Exception as e:
+        return {"reproduced": False, "reason": f"{type(e).__name__}: {str(e)[:160]}"}
+
+
+def replay_synaptic(p):
+    return native_synaptic_charge()
+
+
 def main(tier):
     ck = Check(PID, tier)
     S = structures(tier, ck.seed)
@@ -202,6 +242,28 @@ def main(tier):
             for r in bad[:3]:
                 ck.violation(r["name"], {"solver": r["backend"], "solver_output": r["detail"], "model": r["model"], "cells": o[1]["cells"], "kind": "c02",
                                          "replay_module": "jxverif.props.C02", "replay": rp}, reproduced=rp.get("reproduced", False))
+    # "... minus the charge carried by membrane AND SYNAPTIC currents": the membrane terms the real Module.step hands to the
+    # solver contain, for every compartment, exactly the currents of the synapses listed onto it, converted with that compartment's
+    # area and divided ONCE by its capacitance (symbolic, per compartment), with an exact linearisation in v_post - so that the
+    # charge balance above, which is stated for arbitrary membrane terms, also accounts for the synaptic charge.  These are C09's
+    # contracts on the real Network._synapse_currents / Module.step; two wirings with all synapse types are run here so that this
+    # check stands alone (seeded change C02_e divides the synaptic terms by the capacitance twice).
+    syn_w = [[(0, 3, "I"), (4, 1, "R"), (2, 4, "T")], [(1, 4, "T"), (3, 0, "I"), (0, 3, "I")]]
+    outs_s = run_units("jxverif.props.C09", "worker", [([w], "canary" if tier == "quick" else tier, None) for w in syn_w])
+    for o in outs_s:
+        if o[0] != "ok" or o[1]["error"]:
+            ck.error(str(o[1] if o[0] != "ok" else o[1]["error"])[:600])
+            continue
+        first = True
+        for r in o[1]["results"]:
+            r = dict(r)
+            r["name"] = "synaptic charge:" + r["name"]
+            ck.add(r)
+            if r["status"] == "refuted" and first:
+                first = False
+                rp = native_synaptic_charge()
+                ck.violation(r["name"], {"solver": r["backend"], "solver_output": r["detail"], "model": r.get("model", {}), "kind": "c02", "replay_module": "jxverif.props.C02",
+                                         "replay_fn": "replay_synaptic", "replay": rp}, reproduced=rp.get("reproduced", False))
     n_struct, viol = 0, 0
     reached = {}
     for o in outs[:len(S)] + outs_l:
